@@ -125,6 +125,9 @@ def judge(spec, res, ref):
         if out["summary"]["CriticalPath"] != stub["summary"]["CriticalPath"] or out["cp"] != stub["cp"]:
             viol("throughput_or_cp_changed", "critical path %r != %r" % (out["cp"], stub["cp"]))
         rows = lcdcheck.non_lcd_rows(out["text"])
+        if rows is not None and stub.get("rows") is not None and spec.get("via_cli"):
+            # the CLI path may add header warnings (kernel length, default arch) the API-path stub run has not
+            rows, stub = [None] + rows[1:], dict(stub, rows=[None] + stub["rows"][1:])
         if rows is not None and stub.get("rows") is not None and rows != stub["rows"]:
             bad = [i for i, (a, b) in enumerate(zip(rows, stub["rows"])) if a != b][:1]
             viol("throughput_or_cp_changed", "non-LCD cells of the report differ (row %r)" % (bad,))
@@ -176,6 +179,8 @@ def probes(agg, spec, res, facts):
         agg.probes["timeout0_with_finished_worker"] += 1
     if facts.get("timed_out"):
         agg.probes["timed_out_flag_set"] += 1
+    if spec.get("via_cli"):
+        agg.probes["run_through_cli_entry_point(osaca.osaca.run)"] += 1
     if facts.get("complete") is False:
         agg.probes["partial_result_returned"] += 1
     slow = sum(1 for p in res.world.procs if p.task and p.task.line_cost >= 3e-4)
@@ -210,7 +215,8 @@ def run_params(rng, klen, ref_lines, tractable):
         speeds = [mid * f for f in (0.1, 0.5, 1.0, 2.0, 8.0)]
     if not tractable and timeout in (-1, GENEROUS):
         timeout = rng.choice([0, 1, 2])
-    return {"workers": workers, "threshold": threshold, "timeout": timeout, "speeds": speeds}
+    return {"workers": workers, "threshold": threshold, "timeout": timeout, "speeds": speeds,
+            "via_cli": rng.random() < 0.15}
 
 
 def make_spec(case_spec, params):
